@@ -180,7 +180,7 @@ theorem superN_trans (q : SuperQuirks)
     obtain ⟨x, hx, hxy⟩ := h1 y hy
     refine ⟨x, hx, ?_⟩
     unfold Selector.isSuperW at *
-    exact isSuperC_trans _ x y z
+    exact isSuperC_trans _ _ x y z
       (fun _ _ _ _ _ _ => Compound.isSuperG_trans hA (superN_trans q hA n)) hxy hyz
 
 /-! ### compounds that gain simple selectors -/
@@ -303,10 +303,13 @@ theorem unquoteCss_plain (v : List Char) (q : Quote) (h : v.contains '\\' = fals
   · rfl
   · exact unquoteGo_plain v h
 
+/-- the code as it is, but with the transitive attribute comparison -/
+def superStrict : SuperQuirks := { parentStrict := true }
+
 theorem Attr.isSuper_plain {a b : Attr} (ha : a.plain = true) (hb : b.plain = true) :
-    Attr.isSuper superAsis a b = Attr.isSuper superSpec a b := by
+    Attr.isSuper superAsis a b = Attr.isSuper superStrict a b := by
   simp only [Attr.plain, Bool.not_eq_true'] at ha hb
-  simp only [Attr.isSuper, cssStrEq, superAsis, superSpec, unquoteCss_plain _ _ ha,
+  simp only [Attr.isSuper, cssStrEq, superAsis, superStrict, unquoteCss_plain _ _ ha,
     unquoteCss_plain _ _ hb, Bool.true_and, Bool.false_and]
   split <;> simp_all
 
@@ -364,7 +367,7 @@ theorem attr_plain {x : Selector} {cx : Compound} {a : Attr}
     exact h1.1 a ha
 
 theorem superN_asis_eq_spec : ∀ (n : Nat) (A B : SelSet), Selector.plainList A = true →
-    Selector.plainList B = true → superN superAsis n A B = superN superSpec n A B
+    Selector.plainList B = true → superN superAsis n A B = superN superStrict n A B
   | 0, _, _, _, _ => rfl
   | n + 1, A, B, hA, hB => by
     simp only [superN]
